@@ -484,17 +484,15 @@ fn full_body(data: Vec<u8>) -> Full<Bytes> {
 /// Error responses are always JSON (even with ArrowRenderer) and contain a "status" field
 /// Successful responses may be Arrow binary format or large JSON, so we default to OK
 fn extract_http_status_from_response(output: &[u8]) -> hyper::StatusCode {
-    // Early return for non-JSON responses (Arrow, plain text, etc.)
+    // Non-JSON responses: the text renderer starts every non-streaming response with
+    // "<code> <message>\n"; Arrow streams and everything else are successes.
     if !output.starts_with(b"{") {
-        return hyper::StatusCode::OK;
-    }
-
-    // Fast path: Check if response likely contains error status field
-    // Error responses typically start with {"status": or have "status" near the beginning
-    // Only parse if we see the pattern "status" in the first 50 bytes
-    let check_len = output.len().min(50);
-    if !output[..check_len].windows(6).any(|w| w == b"status") {
-        // No "status" field found, assume success
+        if output.len() >= 4 && output[..3].iter().all(|b| b.is_ascii_digit()) && output[3] == b' ' {
+            let code = output[..3]
+                .iter()
+                .fold(0u64, |acc, b| acc * 10 + (b - b'0') as u64);
+            return map_status_code_to_http(code);
+        }
         return hyper::StatusCode::OK;
     }
 
@@ -505,6 +503,13 @@ fn extract_http_status_from_response(output: &[u8]) -> hyper::StatusCode {
     } else {
         output.len().min(200)
     };
+
+    // Fast path: only parse if the word "status" occurs in the part that would be parsed
+    // (the Arrow renderer's JSON fallback writes its keys sorted, "status" comes last)
+    if !output[..parse_len].windows(6).any(|w| w == b"status") {
+        // No "status" field found, assume success
+        return hyper::StatusCode::OK;
+    }
 
     // Try to parse JSON and extract status code using faster parser
     if let Ok(json_str) = std::str::from_utf8(&output[..parse_len]) {
